@@ -104,7 +104,7 @@ def run(chk):
             path = h.path()
             (p,) = h.ex.call(E + ctor, [], path)
             r = p.outcome[1][0]
-            g = p.heap[r.obj][0]
+            g = h.result(p, r)
             okc = isinstance(g, GM.G) and g.kind == "vec" and {k: v for k, v in g.v.items()} == gen and h.ex.meta[r.obj].kind in ("heap", "stack")
             chk.fact("%s returns a fresh copy of the package-level point; package state not written" % ctor, okc and not any(w[0] == "w" and h.ex.meta[w[1]].kind == "global" for w in p.log), [E + ctor])
         # Set copies
@@ -112,7 +112,7 @@ def run(chk):
         src = h.point(path, "P")
         dst = h.point(path, None)
         (p,) = h.ex.call(prog.find("Point).Set"), [dst, src], path)
-        g = p.heap[dst.obj][0]
+        g = h.result(p, dst)
         chk.fact("Point.Set copies its argument (a valid point stays valid)", isinstance(g, GM.G) and g.kind == "vec" and list(g.v.items()) == [("P", 1)], [prog.find("Point).Set")])
     items.append(("constructors", constructors))
     from . import sweep
